@@ -91,6 +91,22 @@ type stepCtx struct {
 	sBefore         int
 }
 
+// drawExtras adds generated settings that must not change any of the session properties: the
+// header tag LastMsgSeqNumProcessed on outbound messages and the precision of outbound timestamps.
+func drawExtras(t *rapid.T, c *stats.Collector, cfg *simCfg) {
+	if cfg.settings == nil {
+		cfg.settings = map[string]string{}
+	}
+	if rapid.IntRange(0, 3).Draw(t, "extra-lastmsgseqnumprocessed") == 0 {
+		cfg.settings[config.EnableLastMsgSeqNumProcessed] = "Y"
+		c.Class("setting:EnableLastMsgSeqNumProcessed")
+	}
+	if p := rapid.SampledFrom([]string{"", "", "", "SECONDS", "MICROS", "NANOS"}).Draw(t, "extra-timestampprecision"); p != "" {
+		cfg.settings[config.TimeStampPrecision] = p
+		c.Class("setting:TimeStampPrecision")
+	}
+}
+
 func newSim(t vk.TB, c *stats.Collector, cfg simCfg) *sim {
 	s := &sim{t: t, c: c, cfg: cfg}
 	id := quickfix.SessionID{BeginString: cfg.begin, SenderCompID: "ENG", TargetCompID: "PEER"}
